@@ -139,6 +139,12 @@ func mkHeld(s string, variant int) any {
 		}
 		return string(unhex(p[2]))
 	case "bytes":
+		if p[2] == "nil" { // a typed nil slice: the strict accessor succeeds with a nil result
+			if p[1] == "1" {
+				return nBytes(nil)
+			}
+			return []byte(nil)
+		}
 		if p[1] == "1" {
 			return nBytes(unhex(p[2]))
 		}
